@@ -67,8 +67,10 @@ unsigned int get_rex_prefix(struct instr *all_instr, struct operand *m,
   int rex_prefix = 0;
   unsigned int rm = m->reg;
   // preprocess vex paremeters
+  // (VEX.W follows the operand size: for a memory operand that is the width
+  // of the register operand, not of the address register)
   all_instr->hex.is_w0 = true;
-  if ((m->reg & MODE_MASK) < reg64)
+  if (((all_instr->mem_disp ? r->reg : m->reg) & MODE_MASK) < reg64)
     all_instr->hex.is_w0 = false;
   if ((m->reg & MODE_MASK) == mmx64 || (r->reg & MODE_MASK) == mmx64) {
     unsigned int vector_prefix = get_vector_rex_prefix(all_instr, m->reg, r->reg);
